@@ -60,7 +60,11 @@ type Case struct {
 	OrderKeys []int                   `json:"order_keys"`       // release order = slice indexes sorted by (key[i%len], i)
 	PermKeys  [][]int                 `json:"perm_keys,omitempty"`
 	Hold      bool                    `json:"hold"`
-	Class     string                  `json:"class,omitempty"`
+	// http layer: after the first query the SAME client (cache alive) is asked again, once per entry, about the window
+	// shifted by that many steps (0 = the same window); those responses are not held but delayed per slice by DelaysUs
+	Shifts   []int  `json:"shifts,omitempty"`
+	DelaysUs []int  `json:"delays_us,omitempty"`
+	Class    string `json:"class,omitempty"`
 }
 
 func (c Case) bitmap() fakeprom.Bitmap {
@@ -132,7 +136,7 @@ func reference(c Case, srv *fakeprom.BitmapServer, reqs []fakeprom.RangeRequest)
 // firstGridPoint is the smallest point of the grid {g0 + n*step} that is >= start.
 func firstGridPoint(g0, start, step int64) int64 {
 	if g0 >= start {
-		return g0
+		return g0 - (g0-start)/step*step
 	}
 	return g0 + (start-g0+step-1)/step*step
 }
@@ -389,11 +393,18 @@ func predictSlices(start, end, step int64) int {
 	return n
 }
 
+type followUp struct {
+	start, end int64
+	ranges     promapi.MetricTimeRanges
+}
+
 type runResult struct {
-	ranges promapi.MetricTimeRanges
-	reqs   []fakeprom.RangeRequest
-	srv    *fakeprom.BitmapServer
-	held   int
+	follow         []followUp
+	ranges         promapi.MetricTimeRanges
+	reqs           []fakeprom.RangeRequest
+	firstQueryReqs int // requests with Seq below this belong to the first query
+	srv            *fakeprom.BitmapServer
+	held           int
 }
 
 // runHTTP performs one RangeQuery through the real client. The server is left open for Present() lookups;
@@ -412,17 +423,21 @@ func runHTTP(c Case, hold bool) (res runResult, err error) {
 		err error
 		pan any
 	}
-	done := make(chan out, 1)
-	go func() {
-		var o out
-		defer func() {
-			if p := recover(); p != nil {
-				o.pan = p
-			}
-			done <- o
+	ask := func(start, end int64) chan out {
+		done := make(chan out, 1)
+		go func() {
+			var o out
+			defer func() {
+				if p := recover(); p != nil {
+					o.pan = p
+				}
+				done <- o
+			}()
+			o.r, o.err = fg.RangeQuery(context.Background(), "c13_metric", absRange{start, end, c.Step})
 		}()
-		o.r, o.err = fg.RangeQuery(context.Background(), "c13_metric", absRange{c.Start, c.End, c.Step})
-	}()
+		return done
+	}
+	done := ask(c.Start, c.End)
 
 	if hold {
 		res.held = srv.WaitHeld(predicted, 3*time.Second)
@@ -441,18 +456,46 @@ func runHTTP(c Case, hold bool) (res runResult, err error) {
 		srv.ReleaseAll()
 		return res, fmt.Errorf("%w: RangeQuery did not return within 90s", errInconclusive)
 	}
-	fg.Close(reg)
-	res.reqs = srv.Requests()
-	if o.pan != nil {
-		return res, fmt.Errorf("RangeQuery panicked: %v", o.pan)
+	defer fg.Close(reg)
+	finish := func(o out) error {
+		res.reqs = srv.Requests()
+		if o.pan != nil {
+			return fmt.Errorf("RangeQuery panicked: %v", o.pan)
+		}
+		if p := srv.Problems(); len(p) > 0 {
+			return fmt.Errorf("%w: fake server could not interpret a request: %s", errInconclusive, p[0])
+		}
+		if o.err != nil {
+			return fmt.Errorf("%w: RangeQuery failed against a healthy server: %v", errInconclusive, o.err)
+		}
+		return nil
 	}
-	if p := srv.Problems(); len(p) > 0 {
-		return res, fmt.Errorf("%w: fake server could not interpret a request: %s", errInconclusive, p[0])
+	if err := finish(o); err != nil {
+		return res, err
 	}
-	if o.err != nil {
-		return res, fmt.Errorf("%w: RangeQuery failed against a healthy server: %v", errInconclusive, o.err)
-	}
+	res.firstQueryReqs = len(res.reqs)
 	res.ranges = o.r.Series.Ranges
+	// the same client again: slices answered before now come from its cache
+	if len(c.Shifts) > 0 {
+		srv.ReleaseAll()
+		delays := make([]time.Duration, len(c.DelaysUs))
+		for i, d := range c.DelaysUs {
+			delays[i] = time.Duration(d) * time.Microsecond
+		}
+		srv.SetDelays(delays)
+		for _, sh := range c.Shifts {
+			fs, fe := c.Start+int64(sh)*c.Step, c.End+int64(sh)*c.Step
+			select {
+			case o = <-ask(fs, fe):
+			case <-time.After(90 * time.Second):
+				return res, fmt.Errorf("%w: repeated RangeQuery did not return within 90s", errInconclusive)
+			}
+			if err := finish(o); err != nil {
+				return res, err
+			}
+			res.follow = append(res.follow, followUp{fs, fe, o.r.Series.Ranges})
+		}
+	}
 	return res, nil
 }
 
@@ -471,18 +514,45 @@ func checkHTTP(c Case) (sh shape, err error) {
 	if res.srv != nil {
 		defer res.srv.Close()
 	}
-	if res.reqs != nil {
-		sh = classify(c, res.srv, res.reqs)
+	// the first query is judged on the requests it made itself
+	own := res.reqs
+	if res.firstQueryReqs > 0 {
+		own = nil
+		for _, r := range res.reqs {
+			if r.Seq < res.firstQueryReqs {
+				own = append(own, r)
+			}
+		}
+	}
+	if own != nil {
+		sh = classify(c, res.srv, own)
 	}
 	if err != nil {
 		return sh, err
 	}
-	want, err := reference(c, res.srv, res.reqs)
+	want, err := reference(c, res.srv, own)
 	if err != nil {
 		return sh, err
 	}
-	if err := judge(c, want, spansOf(res.ranges), res.reqs); err != nil {
+	if err := judge(c, want, spansOf(res.ranges), own); err != nil {
 		return sh, fmt.Errorf("start=%d end=%d step=%ds, %d slice(s): %w", c.Start, c.End, c.Step, sh.slices, err)
+	}
+	// repeated / shifted queries on the same client: same oracle, the grid phase comes from the whole request log
+	// (slices served from the client's cache leave no request)
+	for i, f := range res.follow {
+		fc := c
+		fc.Start, fc.End = f.start, f.end
+		want, err := reference(fc, res.srv, res.reqs)
+		if err != nil {
+			return sh, err
+		}
+		if err := judge(fc, want, spansOf(f.ranges), res.reqs); err != nil {
+			if errors.Is(err, errBeforeStart) && !presentBeforeStart(fc, res.srv, res.reqs) {
+				err = fmt.Errorf("(class predicate does not hold) %v", err)
+			}
+			return sh, fmt.Errorf("query #%d on the same client (window shifted by %d step(s): start=%d end=%d step=%ds), after the first query over start=%d end=%d: %w",
+				i+2, c.Shifts[i], f.start, f.end, c.Step, c.Start, c.End, err)
+		}
 	}
 	return sh, nil
 }
@@ -649,10 +719,34 @@ func genCase(t *rapid.T, kind string) Case {
 
 	ns := rapid.IntRange(1, 4).Draw(t, "nseries")
 	seriesLabels := rapid.Permutation(labelPool).Draw(t, "labelsets")[:ns]
+	// "confined" cases: every series lives in the interior of ONE slice (a few short islands), so that nothing
+	// continues across a slice boundary and no two ranges of the whole result can merge
+	allConfined := len(bounds) >= 1 && rapid.IntRange(0, 3).Draw(t, "confined") == 0
 	for si := 0; si < ns; si++ {
 		lbl := fmt.Sprintf("s%d.", si)
 		bits := make([]bool, nbits)
-		switch rapid.IntRange(0, 9).Draw(t, lbl+"shape") {
+		shape := rapid.IntRange(0, 9).Draw(t, lbl+"shape")
+		if allConfined || (shape == 2 && len(bounds) >= 1) {
+			// slice k spans bit indexes [lo, hi): before the first boundary, between two boundaries, or after the last
+			k := rapid.IntRange(0, min(len(bounds), 40)).Draw(t, lbl+"slice")
+			lo, hi := 0, nbits
+			if k > 0 {
+				lo = bounds[k-1]
+			}
+			if k < len(bounds) {
+				hi = bounds[k]
+			}
+			lo, hi = max(lo, int((c.Start-c.Origin)/c.Step))+2, min(hi, nbits)-3
+			for n, islands := 0, rapid.IntRange(1, 3).Draw(t, lbl+"islands"); n < islands && hi > lo; n++ {
+				at := rapid.IntRange(lo, hi).Draw(t, fmt.Sprintf("%sat%d", lbl, n))
+				for w, width := 0, rapid.IntRange(1, 2).Draw(t, fmt.Sprintf("%sw%d", lbl, n)); w < width && at+w <= hi; w++ {
+					bits[at+w] = true
+				}
+			}
+			c.Series = append(c.Series, fakeprom.BitmapSeries{Labels: seriesLabels[si], Runs: fakeprom.RunsOf(bits)})
+			continue
+		}
+		switch shape {
 		case 0: // always
 			for i := range bits {
 				bits[i] = true
@@ -714,6 +808,13 @@ func genCase(t *rapid.T, kind string) Case {
 	if kind == "http" {
 		c.Hold = rapid.IntRange(0, 9).Draw(t, "hold") != 0
 		c.OrderKeys = keyGen.Draw(t, "order")
+		// ask the same client again: the same window, or one shifted by a few steps / a whole slice
+		for i, n := 0, rapid.IntRange(0, 2).Draw(t, "repeats"); i < n; i++ {
+			c.Shifts = append(c.Shifts, rapid.SampledFrom([]int{0, 0, 0, 1, 2, 3, -1, -2, int(L), -int(L)}).Draw(t, fmt.Sprintf("shift%d", i)))
+		}
+		if len(c.Shifts) > 0 {
+			c.DelaysUs = rapid.SliceOfN(rapid.IntRange(0, 1500), 4, 8).Draw(t, "delays")
+		}
 	} else {
 		np := rapid.IntRange(2, 6).Draw(t, "nperm")
 		for i := 0; i < np; i++ {
@@ -747,7 +848,7 @@ var wsRe = regexp.MustCompile(`\s+`)
 
 func caseKey(c Case) string {
 	var b strings.Builder
-	fmt.Fprintf(&b, "%s|%d|%d|%d|%v|%v|%v", c.Kind, c.Start, c.End, c.Step, c.OrderKeys, c.PermKeys, c.Orders)
+	fmt.Fprintf(&b, "%s|%d|%d|%d|%v|%v|%v|%v|%v", c.Kind, c.Start, c.End, c.Step, c.OrderKeys, c.PermKeys, c.Orders, c.Shifts, c.DelaysUs)
 	for _, s := range c.Series {
 		fmt.Fprintf(&b, "|%v%v", s.Labels, s.Runs)
 	}
